@@ -613,7 +613,7 @@ func (c *c43chain) checkSection(sec uint32) {
 		}
 	}
 	c.r.Class(fmt.Sprintf("section-%d:index-equals-block-blooms", sec))
-	c.r.Need(nonzero >= 30, "section %d has only %d non-zero bit vectors", sec, nonzero)
+	c.r.Need(nonzero >= 3, "section %d has only %d non-zero bit vectors", sec, nonzero) // fixture sanity only: one log alone sets three bits
 	// end to end: every emitted log, and every log the node serves for a block of the section, is found
 	// through the index
 	for b := uint32(0); b < nb; b++ {
